@@ -339,6 +339,15 @@ pub fn run(ctx: &Ctx) -> i32 {
                     other => println!("NOTE: known finding {} no longer reproduces (witness gives {other:?})", e.signature),
                 }
             }
+            if e.signature == "witness:union-nested-directly-in-a-union" {
+                // excluded by construction: the type generator boxes a union that would sit directly
+                // inside a union (tygen::norm_shape)
+                let src = "'t = A | (B | C[^])\nwd = #(A | B | C['int] | C[A]) { $ },\nx = C[5] wd,\nx ='t";
+                match qrun::eval_source(src, &Modules::new(), &reg, 1000, 1_000_000) {
+                    qrun::Outcome::Val(v) if v.to_string() == "Ok" => stats.known_hit(&e.signature),
+                    other => println!("NOTE: known finding {} no longer reproduces (witness gives {other:?})", e.signature),
+                }
+            }
             if e.signature == format!("receive-took-wrong-message:{GENERIC_BUILT}") {
                 let src = format!("mk = #<'g>'g {{ T[~] }},\nh = @#{{ ! [#(T['int] | T['bin]) {{ [] }}, 0] Ok, ! [#T['bin], #{MARK}] }},\n5 mk h,\n{MARK} h,\n!h");
                 let got = qrun::compile(&src, &Modules::new(), &reg).ok().map(|c| {
